@@ -11,11 +11,12 @@ def check(run):
     known = {e[0]: e[2] for e in layouts.load()["error_table"]}
     scs = []
 
-    def scenario(replies, expect):
+    def scenario(replies, expect, finding_class=None):
         sc = cc.Scenario(S).start()
         sc.ops.append("read_card")
         sc.exchange(S.read_card_req(sc.cfg["rct"]), replies)
         sc.exp_results.append(expect)
+        sc.finding_class = finding_class
         scs.append(sc)
 
     for n_inter in (0, 1, 3):
@@ -34,14 +35,26 @@ def check(run):
                 scenario(pre + [S.status_info({0x27: 0, 0x06: {"uuid": uid}})], "Ok:Member:" + (cc.canon_uid(uid) or ""))
         scenario(pre + [S.status_info({0x27: 0, 0x06: {}})], "Err:Zvt:IncompleteData")            # container without UID
         scenario(pre + [S.status_info({0x27: 0})], "Err:Zvt:IncompleteData")                        # no container at all
-        # application list: entries with and without ids; a UID present at the same time must not matter
-        for subs, exp in (([(b"\x00\x05", b"\xa0\x00\x00\x00\x04\x10\x10")], "Ok:Bank"),
-                          ([(None, b"\xa0\x00\x00\x00\x03")], "Ok:Bank"),
-                          ([(b"\x00\x05", b"\xa0\x00"), (None, None)], "Ok:Bank"),
-                          ([(b"\x00\x05", None)], "Err:Msg:Unknown_card_type"),
-                          ([(None, None), (b"\x00\x05", b"\xa0\x00")], "Err:Msg:Unknown_card_type")):
+        # application list: entries with and without application ids, in every order.  The property's reading: a payment
+        # application listed anywhere => Bank (whatever the UID); none listed => the UID as membership id, an error without a UID
+        for subs in ([(b"\x00\x05", b"\xa0\x00\x00\x00\x04\x10\x10")],
+                     [(None, b"\xa0\x00\x00\x00\x03")],
+                     [(b"\x00\x05", b"\xa0\x00"), (None, None)],
+                     [(None, None), (b"\x00\x05", b"\xa0\x00")],
+                     [(b"\x00\x05", None), (None, None), (None, b"\xa0\x00\x00\x00\x04")],
+                     [(b"\x00\x05", None)],
+                     [(None, None)],
+                     [(b"\x00\x05", None), (b"\x00\x06", None)]):
+            listed = any(app is not None for _, app in subs)
             for uid in (None, "04a1b2c3d4e5f6", "000000000000081ca72f"):
-                scenario(pre + [S.status_info({0x27: 0, 0x06: {"uuid": uid, "subs": subs}})], exp)
+                if listed:
+                    exp, fc = "Ok:Bank", None
+                elif uid is None:
+                    exp, fc = "~Err:", None                   # an error (which one is not the property's business)
+                else:
+                    # KNOWN FINDING (open): the code answers "unknown card type" for a list none of whose entries names an application
+                    exp, fc = "Ok:Member:" + cc.canon_uid(uid), "application-list-without-application-id-with-uid"
+                scenario(pre + [S.status_info({0x27: 0, 0x06: {"uuid": uid, "subs": subs}})], exp, fc)
     # all abort codes: time-out = no card, any other abort an error
     for c in range(256):
         if c == 0x6c:
@@ -61,7 +74,7 @@ def check(run):
     if any(not v.get("no_failing_input_found") for v in run.violations):
         run.violations = [v for v in run.violations if not v.get("no_failing_input_found")]
     return vlib.finish(run, trusted_base=TB, assumptions=["UIDs are hex text (ASCII) as the codec produces them",
-                                                           "a listed entry WITHOUT an application id before one with an id yields an error rather than Bank (observation O4): never Membership"])
+                                                           "open known finding: an application list none of whose entries names an application, with a UID reported, is answered with an error instead of the UID as membership id (known_findings.json)"])
 
 
 def replay(path):
